@@ -1296,6 +1296,46 @@ pub fn info_build_print(doc: &str) -> Outcome {
     in_child("info.build_print_inproc", doc, "a document (printed both ways) or an error", "parse / information set / print")
 }
 
+/// one grid case in a child process (REPLAY_ISOLATE): the outcome the child prints, or ABORT / HANG
+pub fn run_isolated(op: &str, a: &Args) -> Option<Outcome> {
+    use std::io::Read;
+    use std::process::{Command, Stdio};
+    let exe = std::env::current_exe().ok()?;
+    let mut cmd = Command::new(exe);
+    cmd.arg("run").arg(op);
+    for (k, v) in a {
+        cmd.arg(format!("{}={}", k, crate::esc(v)));
+    }
+    let mut child = cmd.env_remove("REPLAY_ISOLATE").stdout(Stdio::piped()).stderr(Stdio::piped()).spawn().ok()?;
+    let start = std::time::Instant::now();
+    let status = loop {
+        match child.try_wait().ok()? {
+            Some(s) => break Some(s),
+            None if start.elapsed().as_secs() >= 20 => {
+                let _ = child.kill();
+                let _ = child.wait();
+                break None;
+            }
+            None => std::thread::sleep(std::time::Duration::from_millis(1)),
+        }
+    };
+    let mut so = String::new();
+    let mut se = String::new();
+    let _ = child.stdout.take()?.read_to_string(&mut so);
+    let _ = child.stderr.take()?.read_to_string(&mut se);
+    let field = |k: &str| so.lines().find_map(|l| l.trim().strip_prefix(k).map(|v| v.to_string()));
+    match status {
+        None => Some(Outcome { observed: "HANG(no result within 20 s)".into(), expected: "a result".into(), note: String::new() }),
+        Some(s) if s.code() == Some(2) => None,
+        Some(s) if s.code().is_some() => Some(Outcome { observed: field("observed=")?, expected: field("expected=")?, note: field("note=").unwrap_or_default() }),
+        Some(s) => {
+            use std::os::unix::process::ExitStatusExt;
+            let why = if se.contains("overflowed its stack") { "stack overflow" } else { "killed" };
+            Some(Outcome { observed: format!("ABORT(signal {}: {})", s.signal().unwrap_or(0), why), expected: "a result (no abort of the process)".into(), note: String::new() })
+        }
+    }
+}
+
 pub fn in_child(op: &str, doc: &str, want: &str, site: &str) -> Outcome {
     use std::io::Read;
     use std::process::{Command, Stdio};
